@@ -478,17 +478,13 @@ func searchOps(c *core.Ctx, mode string, depth int, ops []opDesc, variant string
 }
 
 func run(c *core.Ctx) {
-	depth := 3
+	depth := 4
 	if !c.Quick() {
-		depth = 4
+		depth = 5
 	}
-	search(c, "", depth)
 	searchOps(c, "", depth+3, collisionAlphabet(), "-collisions")
-	if !c.Quick() {
-		search(c, "mqtt", 3)
-	} else {
-		search(c, "mqtt", 2)
-	}
+	search(c, "mqtt", depth-1)
+	search(c, "", depth)
 	c.Set("alphabet", len(alphabet("")))
 	c.Set("probes_per_state", len(probes)*4+3)
 	c.Assume("clients act one request at a time (histories, not schedules); each request is acknowledged before the next is sent")
